@@ -997,7 +997,7 @@ pub mod unit {
                             && (cur(val(this.tracked_nodes@, n, p, M::sort_key(sk))) matches Some(v) && v.owns()),
                 }
         @subst <<mut self>> => <<mut this: Self>> why: Verus does not support a `mut self` receiver; the receiver is renamed (`this`), turning the method into an associated function with the same body
-        @subst <<self.>> => <<this.>> x6 why: same renaming of the receiver
+        @subst <<self.>> => <<this.>> x5 why: same renaming of the receiver
         @entry
             let ghost a0 = this.tracked_nodes@;
             let ghost tr0 = this.transient_substates;
